@@ -28,6 +28,7 @@ OBLIGATIONS = {
     "concurrent_calls": "interleavings of two concurrent calls (single-case checks in two threads, cold and after warm-up calls)",
     "long_history": "operations executed in one long history (800 payloads, forward / forward / reverse)",
     "interrupted_calls": "interruption points explored (an earlier call cut short by an asynchronous exception, then ordinary calls)",
+    "standard_or_magic_path": "a BIP44/49/84/86 account path, or a child index whose bytes equal a version constant",
     "history_sequences": "operation sequences (non-initial process states) explored",
     "hardened_edge": "a hardened child derived", "public_edge": "a child derived from an xpub", "hardened_from_xpub": "a hardened child "
     "requested from an xpub (must raise)", "index_max_nonhardened": "index 2^31-1", "stepwise": "a depth>=2 key derived step by step "
@@ -229,6 +230,8 @@ def jobs(tier, seed):
     if tier == "thorough":
         for j in range(12):
             js.append({"name": f"deep/{j}", "part": "deep", "j": j, "weight": 10})
+    for j in range(16):
+        js.append({"name": f"special-paths/{j}", "part": "special", "j": j, "n": 16, "weight": 12})
     for sh in range(4):
         js.append({"name": f"text-seeds/{sh}", "part": "textseeds", "shard": [sh, 4], "weight": 6})
     for sh in range(4):
@@ -334,6 +337,23 @@ def run_job(job):
             if found >= (1 if job["tier"] == "quick" else 3):
                 break
         acc.extra["lookalike_keys_found"] = found
+    elif part == "special":
+        # paths with meaning elsewhere: the standard account paths of BIP44/49/84/86 (both coin types, receive and change) on
+        # both networks, and child indices whose four bytes spell one of the four version constants or other field values
+        j = job["j"]
+        sd = seeds(seed)[0]
+        std = [[H + pu, H + coin, H, ch, ix] for pu in (44, 49, 84, 86) for coin in (0, 1) for ch in (0, 1) for ix in (0, 5)]
+        magic = [[int.from_bytes(v, "big")] for v in sorted(set(R.VER.values()))] + [[0, int.from_bytes(v, "big")] for v in sorted(set(R.VER.values()))] + \
+                [[0x00000000], [0x01000000], [0x7FFFFFFF], [0x80000000 + 0x0488ADE4 % H]]
+        cases = [(p, tn) for p in std + magic for tn in (False, True)]
+        for k, (p, tn) in enumerate(cases):
+            if k % job["n"] != j:
+                continue
+            acc.evaluations += 1
+            acc.nontrivial += 1
+            acc.ob("standard_or_magic_path")
+            acc.check("node", {"seedbytes": sd.hex(), "testnet": tn, "path": p}, chk_node)
+        acc.sample({"special_paths": len(cases), "shard": j})
     elif part == "deep":
         j = job["j"]
         sd = seeds(seed)[j % 4]
